@@ -51,3 +51,5 @@ Proof.
   assert (H2 : / exp x < 1) by (rewrite <- Rinv_1; apply Rinv_lt_contravar; lra).
   lra.
 Qed.
+(* side conditions with products of positive local definitions: [pos1], else non-linear arithmetic on the hypotheses *)
+Ltac pos_side_nra := repeat split; first [ pos1 | timeout 20 nra ].
